@@ -15,6 +15,7 @@
 -/
 import Sbdf.Lemmas.NoUB
 import Sbdf.Lemmas.Post
+import Sbdf.Lemmas.Mono
 import Sbdf.Gen.Tables
 namespace Sbdf.C05
 
@@ -137,13 +138,15 @@ theorem readVA_sane (c : Cfg) (d : Array UInt8) (pos : Nat) (va : VA) (p : Nat) 
       simp only [P.pure_eq_ok, Prod.mk.injEq] at h; rw [h.1]; trivial
     · split at h
       · obtain ⟨v, _, _, h⟩ := P.bind_eq_ok.mp h
-        obtain ⟨_, _, _, h⟩ := P.bind_eq_ok.mp h
-        obtain ⟨bits, _, hb, h⟩ := P.bind_eq_ok.mp h
-        obtain ⟨_, _, _, h⟩ := P.bind_eq_ok.mp h
-        simp only [P.pure_eq_ok, Prod.mk.injEq] at h; rw [h.1]
-        intro hv
-        rw [readN_length _ _ _ _ _ hb]
-        exact packedSize_enough v hv
+        split at h
+        · simp at h
+        · obtain ⟨_, _, _, h⟩ := P.bind_eq_ok.mp h
+          obtain ⟨bits, _, hb, h⟩ := P.bind_eq_ok.mp h
+          obtain ⟨_, _, _, h⟩ := P.bind_eq_ok.mp h
+          simp only [P.pure_eq_ok, Prod.mk.injEq] at h; rw [h.1]
+          intro hv
+          rw [readN_length _ _ _ _ _ hb]
+          exact packedSize_enough v hv
       · simp at h
 
 /-- decoding any array the reader returned never reads past the packed buffer nor fills the
@@ -261,6 +264,22 @@ theorem returned_arrays_decode_no_ub (c : Cfg) (sub : Option (List Bool)) (fuel 
       obtain ⟨p, p', hr⟩ := readSlices_mem c _ sub d fuel pos' ts hts
       have hs := post_readTS_sane c _ sub d p (some ts) p' hr ts rfl x hx
       exact ⟨decode_no_ub c x.values hs.1 w, fun q hq => decode_no_ub c q.2 (hs.2 q hq) w⟩
+
+/-! ### the reading loop ends -/
+
+/-- C05, "terminates", for the caller's loop as a whole: for EVERY byte string and every column
+    subset, reading header, table metadata and then slices until a non-OK status ends with a
+    status (an error or end-of-table) after at most `size / 3 + 1` slice calls — the bound of
+    `size + 8` calls both drivers use is never exhausted.  (Every OK from `sbdf_ts_read` moves
+    the stream at least three bytes forward inside the input: `Lemmas/Mono.lean`.  Before the
+    repair of F20 this was false: a 43-byte file made `sbdf_ts_skip` return OK for ever.) -/
+theorem reading_loop_terminates (c : Cfg) (sub : Option (List Bool)) (d : Array UInt8) (p : Nat) :
+    (readFile c sub d).last ≠ some (.fuel p) := readFile_terminates c sub d p
+
+/-- each OK from `sbdf_ts_read` consumes at least the three marker bytes -/
+theorem slice_read_makes_progress (c : Cfg) (n : Nat) (sub : Option (List Bool)) (d : Array UInt8) (pos : Nat)
+    (r : Option TS) (pos' : Nat) (h : readTS c n sub d pos = .ok (r, pos')) : pos + 3 ≤ pos' ∧ pos + 3 ≤ d.size :=
+  readTS_advances c n sub d pos r pos' h
 
 theorem status_all_complete (s : Status) : s ∈ Status.all := by cases s <;> decide
 
